@@ -13,7 +13,7 @@ EXPLANATION = ("Tetrahedral cell lists with symbolic vertex ids (every numbering
                "outwards (a polynomial sign obligation per emitted face).")
 BOUNDS = {
     "quick": "1 tetrahedron on 4 vertices and 2 tetrahedra on 5 vertices (all labelled cell lists, all vertices used), 3 query orders, "
-             "sorting on/off; the 3-tet fan around an interior edge and the 4-tet split of a tetrahedron (interior vertex) under symbolic "
+             "sorting on/off; the 3-tet fan around an interior edge, the open 3-tet fan around a border edge (every cell order) and the 4-tet split of a tetrahedron (interior vertex) under symbolic "
              "relabelling; outward orientation with symbolic coordinates for one tetrahedron (both cell orientations)",
     "thorough": "adds orientation for 2 tetrahedra (depth), 2 tetrahedra on 6-8 vertices (sharing an edge, a vertex or nothing), 3 tetrahedra on 5-6 vertices (depth), the "
                 "5-tet fan around an interior edge under symbolic relabelling",
@@ -335,6 +335,12 @@ def relabelled_fixed(name):
             ring = [2, 3, 4]
             cells = [(0, 1, ring[i], ring[(i + 1) % 3]) for i in range(3)]
             V = 5
+        elif name == "openfan3":  # three tets around the BORDER edge (0,1): an open fan, listed in every order (middle cell first...)
+            import itertools
+            ring = [2, 3, 4, 5]
+            cells = [(0, 1, ring[i], ring[i + 1]) for i in range(3)]
+            cells = [cells[i] for i in list(itertools.permutations(range(3)))[sx.choice("cell_order", 6)]]
+            V = 6
         else:                   # a tetrahedron split around an interior vertex 4
             base = (0, 1, 2, 3)
             cells = [tuple(4 if j == i else base[j] for j in range(4)) for i in range(4)]
@@ -374,7 +380,7 @@ def obligations(tier):
            ]
     obs.append(Ob("fresh-1tet", fresh(1, 4), covers=COVERS, split=5, note="each volume accessor as first query, one tetrahedron (all labellings)"))
     obs.append(Ob("fresh-2tet", fresh(2, 5), covers=COVERS, note="each volume accessor as first query, two tetrahedra"))
-    for nm in ("fan3", "split4"):
+    for nm in ("fan3", "split4", "openfan3"):
         obs.append(Ob("fixed-" + nm, relabelled_fixed(nm), covers=COVERS, split=3, note=nm + " under symbolic relabelling"))
     if not q:
         obs.append(Ob("orient-2tet", explore(2, 5, coords=True, groups=["boundary_mesh"], orders=1), covers=COVERS, split=8,
